@@ -51,6 +51,7 @@ type encError struct{ msg string }
 func (e encError) Error() string { return e.msg }
 
 type Enc struct {
+	tables map[string]*Term
 	P         *Program
 	Top       *ssa.Function
 	TopC      *FuncContract
@@ -495,6 +496,10 @@ func (f *Frame) analyse() []*ssa.BasicBlock {
 		best := token.NoPos
 		for bi := range f.loops[h].blocks {
 			for _, in := range fn.Blocks[bi].Instrs {
+				switch in.(type) {
+				case *ssa.Phi, *ssa.DebugRef:
+					continue // a phi carries the position of the variable's declaration, not of the loop
+				}
 				if p := in.Pos(); p.IsValid() && (!best.IsValid() || p < best) {
 					best = p
 				}
